@@ -1,2 +1,12 @@
+from vlib.core import Cond
+from vlib import gen
+
+OPS = ["encrypt_compact", "decrypt_compact", "encrypt_json", "decrypt_json", "jwt_encode", "jwt_decode"]
+
+
 def conds(tier):
-    return []
+    T = 360 if tier == "quick" else 1800
+    path, names = gen.specialise("c05_allow.py", [("jwe_ops", [(o,) for o in range(6)])], "c05_gen.py")
+    out = [Cond(path, n, "main", T, "JWE operation %s: returns / reaches a primitive only if alg, enc and zip are admitted" % OPS[int(n.split("__")[1])]) for n in names]
+    out.append(Cond("c05_allow.py", "jwe_ops_witness", "witness", 200))
+    return out
